@@ -99,20 +99,24 @@ def shiftSig (low : List Nat) : List Nat :=
   let s := (low.reverse.dropWhile (· == 0)).reverse
   if s.isEmpty then [1] else s
 
-/-- `shift(positions)` -/
+/-- `shift` on a non-empty buffer `r0` (least significant first): `none` = overlap. -/
+def shiftBuf (r0 : List Nat) (p : Nat) : Option (List Nat) :=
+  if r0.length ≤ p then some (List.replicate p 0 ++ r0)
+  else
+    let sig := shiftSig (r0.take p)
+    if r0.length ≥ p + sig.length && allZero ((r0.drop p).take sig.length) then
+      some (List.replicate p 0 ++ sig ++ r0.drop (p + sig.length))
+    else none
+
+/-- `shift(positions)`; an empty buffer first receives the implicit `1`
+(and then never overlaps: `[1].length ≤ p`). -/
 def shift (b : DS) (p : Nat) : Res × DS :=
   if b.frozen then (some .frozen, b)
   else if p == 0 then (none, b)
   else
-    let r0 := if b.rbuf.isEmpty then [1] else b.rbuf
-    if r0.length ≤ p then (none, { b with rbuf := List.replicate p 0 ++ r0 })
-    else
-      let sig := shiftSig (r0.take p)
-      let k := sig.length
-      if r0.length ≥ p + k && allZero ((r0.drop p).take k) then
-        (none, { b with rbuf := List.replicate p 0 ++ sig ++ r0.drop (p + k) })
-      else
-        (some .overlap, b)   -- (an empty buffer never reaches this branch: `[1].length ≤ p`)
+    match shiftBuf (if b.rbuf.isEmpty then [1] else b.rbuf) p with
+    | some r => (none, { b with rbuf := r })
+    | none => (some .overlap, b)
 
 /-- numeric value of the buffer (leading zeroes do not count) -/
 def valueOf : List Nat → Nat
